@@ -5,6 +5,11 @@
 //  prog=1 create storm: main creates 3 short fibers back to back while the
 //         other kernel thread steals; each must run exactly once
 //  prog=2 mixed: mutex + cond + join + yield in one program
+//  prog=3 deferred work of the post-switch maintenance step: the main fiber enters fiber_cond_wait
+//         (its mutex unlock is deferred to whichever fiber runs next on the thread) while a
+//         contender on the other kernel thread is locking that mutex, and two trivial detached
+//         fibers start and finish on the main fiber's thread meanwhile (their stacks are released
+//         by the same maintenance step)
 // The oracles are the engine's run map (a fiber runs on one thread at a time
 // and is resumed only from a saved state), the wake accounting (one run per
 // wake-up, nothing left queued at quiescence), heap shadow and stack liveness.
@@ -49,6 +54,23 @@ static void* csetter(void* p) {
   return (void*)2;
 }
 
+static int g_cabout;
+GHOST static void cabout(void) { g_cabout = 1; }
+GHOST static int is_cabout(void) { return g_cabout; }
+static void* contender(void* p) {
+  cabout();
+  fiber_mutex_lock(&M);
+  ready_flag = 1;
+  fiber_cond_signal(&C);
+  fiber_mutex_unlock(&M);
+  ran(0);
+  return (void*)1;
+}
+static void* trivial(void* p) {
+  ran((int)(intptr_t)p);
+  return 0;
+}
+
 int harness_main(void) {
   prog = fmc_param("prog", 0);
   rt_start();
@@ -63,6 +85,14 @@ int harness_main(void) {
     fiber_yield();
   } else if (prog == 1) {
     for (; nf < 3; nf++) f[nf] = fiber_create(STK, shorty, (void*)(intptr_t)nf);
+  } else if (prog == 3) {
+    fiber_mutex_lock(&M);
+    f[nf++] = fiber_create(STK, contender, 0);
+    while (!is_cabout()) fmc_yield();  // the other kernel thread steals the contender (main has not switched yet)
+    fiber_detach(fiber_create(STK, trivial, (void*)2));
+    fiber_detach(fiber_create(STK, trivial, (void*)3));
+    while (!ready_flag) fiber_cond_wait(&C, &M);
+    fiber_mutex_unlock(&M);
   } else {
     f[nf++] = fiber_create(STK, cwaiter, 0);
     f[nf++] = fiber_create(STK, csetter, 0);
